@@ -76,7 +76,7 @@ def gen_binary_cases(rng, sc, thorough):
             cases.append('K %s %x' % (t, c))
     # eval()'s EXPRCAST of a floating constant (float and double) to every integer type, signed and unsigned, of every width:
     # all float carriers (range boundaries on both sides) plus NaNs of every kind and both infinities, which must be
-    # diagnosed (theorems C04_float_to_int_never_host_ub / C04_nan_to_int_diag; fixed finding nan-to-int-host-ub)
+    # diagnosed (theorems C04_float_to_int_never_host_ub / C04_nan_to_int_diag; fixed in /repo 1b74a9a)
     for ft in ('float', 'double'):
         ops = sorted(set(car[ft] + NONFINITE_BITS + [rng.choice(NAN_BITS) ^ rng.getrandbits(51) for _ in range(4)]))
         for t in G.INT_TYPES:
@@ -408,7 +408,7 @@ REJECT_CLI = [
 
 MUST_REJECT = REJECT_CLI[:17]
 MAY_REJECT = REJECT_CLI[17:]     # undefined conversions: a diagnostic is welcome, a crash is not
-# a NaN or an infinity has no integral part: the conversion is diagnosed (C04_nan_to_int_diag, fixed finding nan-to-int-host-ub)
+# a NaN or an infinity has no integral part: the conversion is diagnosed (C04_nan_to_int_diag, fixed in /repo 1b74a9a)
 NONFINITE_REJECT = ['int a = (int)(0.0/0.0);\n', 'unsigned long a = (unsigned long)(0.0f/0.0f);\n', 'enum { A = (int)(0.0/0.0) };\n',
                     'unsigned char a = (unsigned char)__builtin_nanf("");\n', 'long a = (long)-(0.0/0.0);\n',
                     'long a = (long)(1.0/0.0);\n', 'unsigned a = (unsigned)(-1.0f/0.0f);\n', 'short a = (short)__builtin_inff();\n']
@@ -555,7 +555,7 @@ def run(ctx):
                         stats['unit_hostub_skipped'] += 1
                         continue
                     nf = NONFINITE_CAST.match(l)
-                    if nf and nf.group(1) != 'bool' and is_nonfinite(int(nf.group(2), 16)):
+                    if nf and nf.group(1) in G.INT_TYPES and nf.group(1) != 'bool' and is_nonfinite(int(nf.group(2), 16)):
                         stats['unit_nonfinite_to_int'] += 1
                         stats['unit_nonfinite_to_int_diagnosed'] += (r == 'stop diag' and m == 'stop diag')
                     if l[0] != 'E' or ' b ' in l or ' k ' in l or ' - ' in l:
